@@ -1,12 +1,12 @@
 SPECIFICATION Spec
 CONSTANTS
   Secs = {1, 2, 3}
-  Keys = {1, 2, 3}
+  Keys = {1, 2}
   Vals = {2, 4}
-  MaxOps = 2
+  MaxOps = 3
   RawKeyLookup = FALSE
   RawKeyDup = FALSE
-  RawKeyMerge = FALSE
+  RawKeyMerge = TRUE
 INVARIANT TypeOK
 INVARIANT EditsAreHandEdits
 INVARIANT ListEachOnce
